@@ -72,7 +72,7 @@ SMALL = {
     # 0 is falsy; 2**53+1 is not a float64
     "int": [0, 9007199254740993, 1],
     # 0.0 falsy; 1.0 is integer-valued (must stay float); 1.5
-    "float": ["0.0", "1.5", "1.0"],
+    "float": ["0.0", "1.5", "1.0", "inf"],
     # ' ' is whitespace-only, 'nan' looks like a sentinel but is a value
     "str": ["a", "nan", " "],
     # epoch day 0, a leap day, a pre-epoch day
